@@ -945,6 +945,10 @@ func (c *Conn) handleStartTLS() {
 	// This is different from just calling reset() since we want the Backend to
 	// be able to see the information about TLS connection in the
 	// ConnectionState object passed to it.
+	//
+	// A chunked transfer that is still open is ended first, so that the
+	// backend has returned from Data before its session is logged out.
+	c.abortBdat()
 	if session := c.Session(); session != nil {
 		session.Logout()
 		c.setSession(nil)
